@@ -49,7 +49,26 @@ fn opt_u64(t: &mut Toks) -> Option<u64> {
     t.opt_u128().map(|x| x as u64)
 }
 
+/// what a snapshot observed, kept for the monitors (before/after comparison)
+#[derive(Clone, Default)]
+pub struct Obs {
+    pub pools: Vec<pmm::PoolInfoResponse>,
+    /// (who, canonical denom) -> balance
+    pub bal: std::collections::BTreeMap<(String, String), u128>,
+    pub supply: std::collections::BTreeMap<String, u128>,
+    pub positions: Vec<fmm::Position>,
+    pub farms: Vec<fmm::Farm>,
+    /// who -> (last claimed, lp -> snapshots)
+    pub users: std::collections::BTreeMap<String, (Option<u64>, std::collections::BTreeMap<String, Vec<(u64, u128)>>)>,
+    pub text: String,
+    pub now_ns: u64,
+    pub epoch: Option<u64>,
+}
+
 pub struct Hist {
+    pub last_obs: Obs,
+    /// wasm event attributes of the last accepted tx (key, value)
+    pub last_attrs: Vec<(String, String)>,
     pub w: World,
     pub lps: Vec<String>,        // canonical LP denoms seen so far
     pub pos_ids: Vec<String>,    // position identifiers seen so far (full, with prefix)
@@ -59,7 +78,7 @@ pub struct Hist {
 
 impl Hist {
     pub fn new(cfg: WorldCfg) -> Hist {
-        Hist { w: World::new(cfg), lps: vec![], pos_ids: vec![], farm_ids: vec![], pending_fault: None }
+        Hist { last_obs: Obs::default(), last_attrs: vec![], w: World::new(cfg), lps: vec![], pos_ids: vec![], farm_ids: vec![], pending_fault: None }
     }
 
     pub fn init_line(&self) -> String {
@@ -110,6 +129,13 @@ impl Hist {
         let sender_a = self.w.a(&sender);
         let caddr = self.w.a(&contract);
         self.w.arm(fault);
+        self.last_attrs.clear();
+        let mut captured: Vec<(String, String)> = vec![];
+        let mut cap = |r: &cw_multi_test::AppResponse| {
+            for e in r.events.iter() {
+                if e.ty == "wasm" { for a in e.attributes.iter() { captured.push((a.key.clone(), a.value.clone())); } }
+            }
+        };
         let res: Result<(), String> = match (contract.as_str(), kind.as_str()) {
             (_, "own") => {
                 let a = self.own_action(&mut t);
@@ -172,7 +198,7 @@ impl Hist {
                         }
                     }
                 };
-                self.w.app.execute_contract(sender_a, caddr, &msg, &funds).map(|_| ()).map_err(|e| format!("{:#}", e))
+                self.w.app.execute_contract(sender_a, caddr, &msg, &funds).map(|r| cap(&r)).map_err(|e| format!("{:#}", e))
             }
             ("fm", _) => {
                 let msg = match kind.as_str() {
@@ -206,7 +232,7 @@ impl Hist {
                         }
                     }
                 };
-                self.w.app.execute_contract(sender_a, caddr, &msg, &funds).map(|_| ()).map_err(|e| format!("{:#}", e))
+                self.w.app.execute_contract(sender_a, caddr, &msg, &funds).map(|r| cap(&r)).map_err(|e| format!("{:#}", e))
             }
             ("em", _) => {
                 let d = opt_u64(&mut t); let g = opt_u64(&mut t);
@@ -217,7 +243,17 @@ impl Hist {
             _ => Err("bad contract".into()),
         };
         self.w.arm(None);
-        match res { Ok(()) => "ok".to_string(), Err(_) => "err".to_string() }
+        self.last_attrs = captured;
+        match res {
+            Ok(()) => "ok".to_string(),
+            Err(e) => {
+                if std::env::var("MDX_ERRS").is_ok() {
+                    let short: String = e.split(':').last().unwrap_or("").trim().chars().take(70).collect();
+                    eprintln!("ERR {} {} | {}", contract, kind, short);
+                }
+                "err".to_string()
+            }
+        }
     }
 
     pub fn exec_line(&mut self, line: &str) -> String {
@@ -314,8 +350,10 @@ impl Hist {
     /// canonical observable state
     pub fn snapshot(&mut self) -> String {
         let mut s = String::new();
+        let mut obs = Obs::default();
         // --- pools
         let pools = self.all_pools();
+        obs.pools = pools.clone();
         s += "pools[";
         for p in pools.iter() {
             let pi = &p.pool_info;
@@ -340,6 +378,7 @@ impl Hist {
         for who in ["pm", "fm", "fc", "em", "u1", "u2", "u3", "u4", "owner", "out"] {
             for d in denoms.iter() {
                 let b = self.w.balance(who, d);
+                obs.bal.insert((who.to_string(), d.clone()), b);
                 // users start with the same huge balance of every base denom: print the delta
                 let is_user = USERS.contains(&who);
                 let base = if is_user && BASE_DENOMS.contains(&d.as_str()) { u128::MAX / 1_000_000 } else { 0 };
@@ -350,7 +389,9 @@ impl Hist {
         }
         s += "] supply[";
         for d in self.lps.iter() {
-            s += &format!("{}={};", d, self.w.supply(d));
+            let sp = self.w.supply(d);
+            obs.supply.insert(d.clone(), sp);
+            s += &format!("{}={};", d, sp);
         }
         s += "] ";
         // --- pool manager config / buffer / ownership
@@ -373,13 +414,17 @@ impl Hist {
                 c.min_unlocking_duration, c.max_unlocking_duration, c.farm_expiration_time, c.emergency_unlock_penalty.atomics());
         }
         s += "farms[";
-        for f in self.all_farms() {
+        let farms = self.all_farms();
+        obs.farms = farms.clone();
+        for f in farms {
             if !self.farm_ids.contains(&f.identifier) { self.farm_ids.push(f.identifier.clone()); }
             s += &format!("{}|{}|{}|{}|{}|{}|{}|{}|{};", f.identifier, self.w.n(f.owner.as_str()), self.w.cd(&f.lp_denom), self.w.cd(&f.farm_asset.denom),
                 f.farm_asset.amount, f.claimed_amount, f.emission_rate, f.start_epoch, f.preliminary_end_epoch);
         }
         s += "] pos[";
-        for p in self.all_positions() {
+        let positions = self.all_positions();
+        obs.positions = positions.clone();
+        for p in positions {
             if !self.pos_ids.contains(&p.identifier) { self.pos_ids.push(p.identifier.clone()); }
             s += &format!("{}|{}|{}|{}|{}|{}|{};", p.identifier, self.w.cd(&p.lp_asset.denom), p.lp_asset.amount, p.unlocking_duration,
                 p.open as u8, p.expiring_at.map(|x| x.to_string()).unwrap_or("-".into()), self.w.n(p.receiver.as_str()));
@@ -392,6 +437,7 @@ impl Hist {
                 let a = self.w.a(who);
                 let last = farm_manager::state::LAST_CLAIMED_EPOCH.may_load(&*storage, &a).ok().flatten();
                 let mut hs = String::new();
+                let mut hm = std::collections::BTreeMap::new();
                 for lp in self.lps.iter() {
                     let real = self.w.rd(lp);
                     let h: Vec<(u64, Uint128)> = farm_manager::state::LP_WEIGHT_HISTORY
@@ -400,12 +446,14 @@ impl Hist {
                         .filter_map(|x| x.ok())
                         .collect();
                     if !h.is_empty() {
+                        hm.insert(lp.clone(), h.iter().map(|(e, w)| (*e, w.u128())).collect::<Vec<_>>());
                         hs += &format!("{}=({})", lp, h.iter().map(|(e, w)| format!("{}:{}", e, w)).collect::<Vec<_>>().join(","));
                     }
                 }
                 if last.is_some() || !hs.is_empty() {
                     s += &format!("{} last={} {};", who, last.map(|x| x.to_string()).unwrap_or("-".into()), hs);
                 }
+                obs.users.insert(who.to_string(), (last, hm));
             }
         }
         s += "] rewards[";
@@ -423,37 +471,78 @@ impl Hist {
             }
         }
         s += &format!("] time[{}]", self.w.now_ns());
+        obs.text = s.clone();
+        obs.now_ns = self.w.now_ns();
+        let er: Result<mantra_dex_std::epoch_manager::EpochResponse, _> = self.w.app.wrap()
+            .query_wasm_smart(self.w.a("em"), &mantra_dex_std::epoch_manager::QueryMsg::CurrentEpoch {});
+        obs.epoch = er.ok().map(|e| e.epoch.id);
+        self.last_obs = obs;
         s
     }
 }
 
-/// run one case given its lines (used for replay and by the generators)
+/// executes state-changing lines; after each one prints the snapshot and the monitor lines
+pub struct Runner {
+    pub h: Hist,
+    pub ms: crate::monitors::MonState,
+}
+
+impl Runner {
+    pub fn new(cfg: WorldCfg) -> Runner {
+        Runner { h: Hist::new(cfg), ms: Default::default() }
+    }
+    pub fn first_snap(&mut self, o: &mut Out) {
+        let s = self.h.exec_line("snap");
+        o.line("snap", &s);
+    }
+    pub fn step(&mut self, line: &str, o: &mut Out) -> String {
+        let before = self.h.last_obs.clone();
+        let res = self.h.exec_line(line);
+        o.line(line, &res);
+        if !line.starts_with("fault") {
+            let s = self.h.exec_line("snap");
+            o.line("snap", &s);
+            let mut mons = vec![];
+            crate::monitors::tx_monitors(&self.h, &mut self.ms, &before, line, &res, &mut mons);
+            crate::monitors::state_monitors(&self.h, &mut self.ms, &mut mons);
+            for m in mons { o.line(&m, "ok"); }
+        }
+        res
+    }
+}
+
+pub fn parse_init(l: &str) -> WorldCfg {
+    let mut t = Toks::new(l);
+    t.s();
+    let tf = t.coins();
+    let pcd = t.s().to_string(); let pca = t.u128();
+    let ffd = t.s().to_string(); let ffa = t.u128();
+    WorldCfg {
+        tf_fees: tf, pool_creation_fee: coin(pca, pcd), farm_fee: coin(ffa, ffd),
+        max_concurrent_farms: t.u64() as u32, max_farm_epoch_buffer: t.u64() as u32,
+        min_unlocking: t.u64(), max_unlocking: t.u64(), farm_expiration_time: t.u64(),
+        emergency_penalty: Decimal::raw(t.u128()), epoch_duration: t.u64(),
+    }
+}
+
+/// run one case given its lines (replay / corpus): `snap` and `mon_*` lines of the file are
+/// ignored — snapshots and monitors are recomputed from what the implementation does now
 pub fn run_case_lines(lines: &[String], o: &mut Out) {
-    let mut h: Option<Hist> = None;
+    let mut r: Option<Runner> = None;
     for l in lines {
-        let mut t = Toks::new(l);
-        match t.s() {
+        let op = l.split_whitespace().next().unwrap_or("");
+        match op {
             "begin" => { o.raw(l); }
-            "end" => { o.raw(l); h = None; }
+            "end" => { o.raw(l); r = None; }
             "init" => {
-                let tf = t.coins();
-                let pcd = t.s().to_string(); let pca = t.u128();
-                let ffd = t.s().to_string(); let ffa = t.u128();
-                let cfg = WorldCfg {
-                    tf_fees: tf, pool_creation_fee: coin(pca, pcd), farm_fee: coin(ffa, ffd),
-                    max_concurrent_farms: t.u64() as u32, max_farm_epoch_buffer: t.u64() as u32,
-                    min_unlocking: t.u64(), max_unlocking: t.u64(), farm_expiration_time: t.u64(),
-                    emergency_penalty: Decimal::raw(t.u128()), epoch_duration: t.u64(),
-                };
-                h = Some(Hist::new(cfg));
+                let mut rr = Runner::new(parse_init(l));
                 o.line(l, "ok");
+                rr.first_snap(o);
+                r = Some(rr);
             }
-            _ => {
-                if let Some(hh) = h.as_mut() {
-                    let r = hh.exec_line(l);
-                    o.line(l, &r);
-                }
-            }
+            "snap" => {}
+            x if x.starts_with("mon_") => {}
+            _ => { if let Some(rr) = r.as_mut() { rr.step(l, o); } }
         }
     }
 }
